@@ -531,3 +531,16 @@ Proof.
   - vm_compute in H. discriminate H.
   - apply (f_equal this) in H. vm_compute in H. discriminate H.
 Qed.
+
+(* the store is single-valued: it never holds two entries for one (fidelity, coordinate) key, and two entries with the
+   same key are the same entry *)
+Lemma store_single_valued : forall (A : Type) (f : key -> A) kpl rr latent batches,
+  let r := run_history f [] kpl rr latent batches in
+  NoDup (map fst (fst r)) /\ forall k v w, In (k, v) (fst r) -> In (k, w) (fst r) -> v = w.
+Proof.
+  intros A f kpl rr latent batches r. subst r.
+  destruct (store_truthful A f kpl rr latent batches) as [Hk Hv].
+  split.
+  - rewrite Hk. apply no_reeval.
+  - intros k v w Hv1 Hw1. rewrite (Hv k v Hv1), (Hv k w Hw1). reflexivity.
+Qed.
